@@ -113,6 +113,9 @@ def adversarial_catalogue():
     # deep nesting (bounded by 40)
     for n in (10, 20, 40):
         add("parens_%d" % n, "def x := " + "(" * n + "1" + ")" * n + "\n")
+        # strings interpolated inside strings, n levels deep, and side by side at every level
+        add("nested_interpolation_%d" % n, "def x := 1\ndef s := " + '"{' * n + "x" + '}"' * n + "\n")
+        add("nested_interpolation_pairs_%d" % n, "def x := 1\ndef s := " + '"{' * (n // 2) + "x" + '}{x}"' * (n // 2) + "\n")
         add("open_parens_%d" % n, "def x := " + "(" * n + "1\n")
         add("brackets_%d" % n, "def x := " + "[" * n + "1" + "]" * n + "\n")
         add("braces_%d" % n, "def x := " + "{" * n + "1" + "}" * n + "\n")
